@@ -101,6 +101,10 @@ def scenario_list(quick):
             out.append(dict(config=cfg, budget=dict(trig=3, fault=0)))
     out.append(dict(config='v6-outer', budget=dict(trig=2, fault=0) if quick else dict(trigA=2, trigB=2, fault=0)))
     out.append(dict(config='v6-outer', budget=dict(trig=1, fault=1) if quick else dict(trig=2, fault=1)))
+    # retransmission time-outs racing with deliveries (a lost datagram is re-sent while other things are in flight)
+    out.append(dict(config='match', timeouts=True, budget=dict(trig=1, fault=1, tick=2) if quick else dict(trig=2, fault=1, tick=2)))
+    out.append(dict(config='ke-mismatch', timeouts=True, kinds=('acquire', 'soft', 'rekey_ike'),
+                    budget=dict(trig=1, fault=1, tick=2) if quick else dict(trig=2, fault=1, tick=2)))
     # two IKE_SAs per endpoint for one connection (simultaneous initiation), INVALID_KE retries on the way
     out.append(dict(config='ke-mismatch', start='double', kinds=('acquire', 'soft', 'rekey_ike'),
                     budget=dict(trig=2, fault=0) if quick else dict(trig=3, fault=0)))
@@ -110,7 +114,8 @@ def scenario_list(quick):
 
 
 def label(params):
-    return '%s%s/%s' % (params['config'], '+double' if params.get('start') == 'double' else '', ','.join('%s=%s' % kv for kv in sorted(params['budget'].items())))
+    return '%s%s%s/%s' % (params['config'], '+double' if params.get('start') == 'double' else '',
+                          '+timeouts' if params.get('timeouts') else '', ','.join('%s=%s' % kv for kv in sorted(params['budget'].items())))
 
 
 def explore(params, monitors, state_monitors=(), quick=True, max_states=None, jobs=0):
